@@ -1,709 +1,945 @@
-"""C13 - subdivision refines a mesh without changing its shape or topology (structural clauses)."""
+"""C13 - subdivision refines a mesh without changing its shape or topology (structural clauses).
+
+The rules no longer match the layout of mesh/subdivision.py.  Every subdivision entry point is *evaluated symbolically* on small
+template meshes (msa/rules/hb_eval.py: named vertex symbols, symbolic vertex count NV, symbolic positions; helper functions,
+comprehensions, closed-form index arithmetic, tables and the container classes are followed through their own syntax trees) and
+the obligations are stated on the resulting template mesh: indices handed out name the vertices appended, new vertices sit at
+the centre of the edge / face / cell they refine, the new elements tile the old ones with their orientation (chain boundary and
+signed area / volume), edge look-ups succeed on meshes whose edge list misses sides, the editing protocol, the sharing of
+containers with the input mesh.  Code the evaluator cannot follow gives `undecided`, never a violation."""
 from __future__ import annotations
 import ast
 from collections import Counter
-from .. import au, sym
+from fractions import Fraction
+from .. import au
 from ..rules import rows
+from ..rules import hb_eval as E, hb_mesh as M
+from ..rules.hb_eval import Unknown, Raised, Obj, Opaque, SList
 
 SUB = "mesh.subdivision"
+SUBM = "mouette.mesh.subdivision"
 
 EXPLANATION = (
-    "Static conformance of mesh/subdivision.py: index rows are never concatenated (R-ROW); every fresh vertex index "
-    "`i = len(vertices)` is consumed by exactly one unconditional append; each new vertex is the mean of exactly the points "
-    "summed (divisor = number of terms, with a triangle gate where the divisor is the literal 3); each literal refinement "
-    "table has the (oriented) boundary of the element it replaces and its interior edges cancel (chain-boundary check), and "
-    "the declared new edges are exactly the edges of the new faces; the editor protocol (prepare + re-instantiate on exit, "
-    "triangulate before triangle-only code, connectivity cleared after an in-place edit); the editing block does not "
-    "mutate the containers it shares with the input mesh. Structural necessary conditions only.")
+    "Bounded symbolic evaluation of every entry point of mesh/subdivision.py on template meshes (named vertex symbols, symbolic "
+    "vertex count and positions; no code of the package is imported or run): fresh indices name the vertices appended; each new "
+    "vertex is the centre of the edge / face / cell it refines; the new faces (cells) have the refined oriented boundary of the "
+    "ones they replace and the same signed area (volume); declared edges are sides of the result, low index first, once; edge "
+    "look-ups succeed when earlier steps added faces without their edges; editor protocol (wrap on enter, re-instantiate with the "
+    "class's dimension on exit, connectivity cleared after an in-place edit); all-or-nothing sharing of containers with the input "
+    "mesh; index rows are used through sequence-agnostic operations only (R-ROW). Structural necessary conditions on templates.")
 
 RULES = {
     "C13-R1": "index rows are used only through sequence-agnostic operations in subdivision.py (R-ROW)",
-    "C13-I1": "a fresh index `i = len(K)` is followed, before any other growth of K, by exactly one unconditional K.append in the same block",
-    "C13-B1": "a new vertex is sum(p_i)/m with m equal to the number of summed positions (literal 3 only behind a triangle gate)",
-    "C13-T1": "a literal refinement table has the oriented boundary of the element it replaces (interior edges cancel); new edges = edges of new faces",
-    "C13-E1": "__exit__ prepares and re-instantiates with the class's dimension; triangle-only code is dominated by triangulate(); in-place edits clear the connectivity",
-    "C13-D1": "arity dispatch: triangulate_face leaves triangles alone, splits quads along a diagonal and fans anything larger; the tetrahedral "
-              "operations return untouched on non-tetrahedra / non-triangles; the three new cells of a face split go to three distinct slots; "
-              "the vertex degree used to detect double border triangles counts both endpoints of every edge",
-    "C13-H1": "the editing block must not mutate containers shared with the input mesh, and a wrapper returns the re-instantiated mesh, not the stale input",
+    "C13-I1": "an index handed out for a new vertex is the index under which that vertex is appended (evaluated on the template mesh)",
+    "C13-B1": "a new vertex is the mean of the vertices of the edge / face / cell it refines, original vertices stay in place",
+    "C13-T1": "the new elements have the refined oriented boundary and the signed area / volume of the element they replace; new edges are sides "
+              "of the new faces, low index first, once",
+    "C13-E1": "__enter__ wraps the mesh as raw data and returns the editor, __exit__ re-instantiates the edited data with the class's dimension; "
+              "triangle-only code runs after triangulate(); triangulate() leaves only triangles; in-place edits of a polyline clear its connectivity",
+    "C13-D1": "arity dispatch: triangles are left alone, quads are split along a diagonal, larger faces are fanned; the tetrahedral operations leave "
+              "non-tetrahedra / non-triangles untouched and replace every adjacent cell by three distinct tetrahedra; the vertex degree that detects "
+              "double border triangles counts both endpoints of every edge",
+    "C13-H1": "the editing block must not mutate containers shared with the input mesh nor share only some of them, and a wrapper returns the "
+              "re-instantiated mesh, not the stale input",
     "C13-H2": "re-preparing the edited data on exit adds the sides of the new faces as edges and flags no generated edge as hard (shared with C02-H1)",
-    "C13-S1": "editor typestate: a method that cuts every edge and then looks up the midpoint of every face side needs the edge list to hold every "
-              "side of every face; it must (re)complete the edges after the last operation that may add faces without their edges",
+    "C13-S1": "a method that looks up the midpoint of every side of every face must find it also when earlier operations of the block (quad "
+              "diagonals, a previous refinement) added faces without their edges",
 }
+
+KIND_RULE = {"index": "C13-I1", "position": "C13-B1", "tiling": "C13-T1", "arity": "C13-D1", "edges": "C13-T1"}
 
 
 def run(ctx):
     rows.selfcheck()
-    rows.check_module(ctx, "C13-R1", SUB, min_uses=8)
-    i1_fresh_index(ctx)
-    b1_barycentres(ctx)
-    t1_refinement_tables(ctx)
-    e1_protocol(ctx)
-    h1_input_not_half_updated(ctx)
-    from .c02 import h1_hard_edges, h2_hard_edges_typestate
-    h1_hard_edges(ctx, "C13-H2")
-    h2_hard_edges_typestate(ctx, "C13-H2")
-    s1_edge_completeness(ctx)
-    d1_dispatch(ctx)
+    rows.check_module(ctx, "C13-R1", SUB, min_uses=4)
+    split_edge_rule(ctx)
+    surface_ops(ctx)
+    surface_refinements(ctx)
+    editor_protocol(ctx)
+    wrapper_rule(ctx)
+    volume_ops(ctx)
+    block_end_to_end(ctx)
+    from .c02 import hard_edges_rule
+    hard_edges_rule(ctx, "C13-H2")
 
 
-# ---------------------------------------------------------------------------- I1
-def _is_len_of_container(e):
-    return isinstance(e, ast.Call) and au.call_tail(e) == "len" and len(e.args) == 1 and \
-        isinstance(e.args[0], ast.Attribute) and e.args[0].attr in ("vertices", "faces", "cells", "edges")
-
-
-def _grows(st, cont_src):
-    """does statement st (recursively) grow container `cont_src`?  returns list of (node, kind)"""
-    out = []
-    for s in [st] + list(au.stmts(getattr(st, "body", []) or [])) + list(au.stmts(getattr(st, "orelse", []) or [])):
-        if isinstance(s, ast.Expr) and isinstance(s.value, ast.Call) and au.call_tail(s.value) in ("append", "extend") \
-                and isinstance(s.value.func, ast.Attribute) and au.src(s.value.func.value) == cont_src:
-            out.append((s, "append" if au.call_tail(s.value) == "append" else "extend"))
-        if isinstance(s, ast.AugAssign) and au.src(s.target) == cont_src:
-            out.append((s, "iadd"))
-    return out
-
-
-def i1_fresh_index(ctx):
-    mod = ctx.repo.module(SUB)
-    n = 0
-    for q, fn in sorted(mod.funcs.items()):
-        for st in au.stmts(fn.body):
-            if not (isinstance(st, ast.Assign) and _is_len_of_container(st.value)):
-                continue
-            cont = au.src(st.value.args[0])
-            n += 1
-            site = ctx.site(mod.name, fn, st)
-            blk, _ = au.enclosing_block(st)
-            idx = [id(x) for x in blk].index(id(st))
-            first = None
-            for s in blk[idx + 1:]:
-                g = _grows(s, cont)
-                if g:
-                    first = (s, g)
-                    break
-            ok = first is not None and first[0] is first[1][0][0] and first[1][0][1] == "append" and len(first[1]) == 1
-            tgt = au.src(st.targets[0])
-            ctx.check(ok, "C13-I1", site,
-                      f"{q}: fresh index `{tgt} = len({cont})` is not consumed by exactly one unconditional {cont}.append(...) next in the same block",
-                      "the index handed out for the new element would name another element (or none)",
-                      note=f"{tgt} = len({cont}) then one append")
-            if ok:
-                # no second growth of the container in the rest of the block before the index variable is reassigned
-                later = blk[[id(x) for x in blk].index(id(first[0])) + 1:]
-                extra = [g for s in later for g in _grows(s, cont)
-                         if not any(isinstance(a, (ast.For, ast.While)) for a in au.ancestors(g[0]) if a is not fn
-                                    and any(a is x for x in au.ancestors(st)))]
-                # growth of the same container later in the same iteration is fine (indices already handed out are stable)
-    ctx.require_count("C13-I1 fresh-index sites", n, 7)
-
-
-# ---------------------------------------------------------------------------- B1
-def _addends(e):
-    if isinstance(e, ast.BinOp) and isinstance(e.op, ast.Add):
-        return _addends(e.left) + _addends(e.right)
-    return [e]
-
-
-def _triangle_gate(fn, node, row_src, b=None):
-    """evidence that the row summed has exactly three entries at `node`."""
-    # (a) dominating self.triangulate() call at the top level of the function, before node
-    for st in fn.body:
-        if st.lineno >= node.lineno:
-            break
-        if isinstance(st, ast.Expr) and isinstance(st.value, ast.Call) and au.call_tail(st.value) == "triangulate":
-            return True
-    # (b) early exit `if len(row) != 3: return`
-    for st in fn.body:
-        if st.lineno >= node.lineno:
-            break
-        if isinstance(st, ast.If) and isinstance(st.test, ast.Compare) and isinstance(st.test.ops[0], ast.NotEq) \
-                and au.const(st.test.comparators[0]) == 3 \
-                and (au.src(st.test.left) == f"len({row_src})" or (b is not None and au.src(b.resolve(st.test.left, at=st)) == f"len({row_src})")) \
-                and st.body and isinstance(st.body[-1], ast.Return):
-            return True
-    return False
-
-
-def b1_barycentres(ctx):
-    mod = ctx.repo.module(SUB)
-    n = 0
-    for q, fn in sorted(mod.funcs.items()):
-        b = sym.Bindings(fn)
-        for st in au.stmts(fn.body):
-            if not (isinstance(st, ast.Expr) and isinstance(st.value, ast.Call) and au.call_tail(st.value) == "append"
-                    and isinstance(st.value.func, ast.Attribute) and au.src(st.value.func.value).endswith(".vertices")
-                    and st.value.args):
-                continue
-            v = b.resolve(st.value.args[0], at=st)
-            if isinstance(v, ast.Name):
-                continue  # copies an existing position
-            n += 1
-            site = ctx.site(mod.name, fn, st)
-            terms = div = None
-            gate_needed = None
-            num = den = None
-            if isinstance(v, ast.BinOp) and isinstance(v.op, ast.Div):
-                num, den = v.left, v.right
-            elif isinstance(v, ast.BinOp) and isinstance(v.op, ast.Mult) and au.const(v.left) is not None:
-                num, den = v.right, ast.Constant(value=1 / au.const(v.left))
-            if num is not None:
-                if isinstance(num, ast.Call) and au.call_tail(num) == "sum" and num.args \
-                        and isinstance(num.args[0], (ast.ListComp, ast.GeneratorExp)):
-                    it = num.args[0].generators[0].iter
-                    row = au.src(it)
-                    terms = f"len({row})"
-                    if au.const(den) is not None:
-                        div = str(int(au.const(den))) if float(au.const(den)).is_integer() else str(au.const(den))
-                        if div == "3":
-                            gate_needed = au.src(b.resolve(it, at=st)) if False else row
-                    else:
-                        div = au.src(den)
-                else:
-                    k = len(_addends(num))
-                    terms = str(k)
-                    c = au.const(den)
-                    div = str(int(round(c))) if c is not None and abs(c - round(c)) < 1e-9 else au.src(den)
-            if terms is None:
-                ctx.fail("C13-B1", site, f"{q}: position of the new vertex `{au.src(v)}` is not a mean of existing positions",
-                         "each new vertex must sit at the centre of the edge, face or cell it refines")
-                continue
-            if gate_needed:
-                ok = _triangle_gate(fn, st, gate_needed, b)
-                ctx.check(ok, "C13-B1", site,
-                          f"{q}: barycentre divides by the literal 3 but nothing guarantees that `{gate_needed}` is a triangle here",
-                          "on a non-triangular face the new vertex would not be at the face centre (non-triangular faces must be "
-                          "triangulated first)", note="sum over a face / 3 behind a triangle gate")
-            else:
-                ctx.check(terms == div, "C13-B1", site,
-                          f"{q}: new vertex is the sum of {terms} position(s) divided by {div}",
-                          "the new vertex must be the mean of exactly the points it is computed from (centre of the refined element)",
-                          note=f"mean of {terms}")
-    ctx.require_count("C13-B1 new-vertex sites", n, 6)
-
-
-# ---------------------------------------------------------------------------- T1
-def _boundary(faces):
-    """Oriented boundary of a set of faces: directed edges minus those cancelled by their reverse."""
-    d = Counter()
-    for f in faces:
-        for i in range(len(f)):
-            d[(f[i], f[(i + 1) % len(f)])] += 1
-    out = Counter()
-    for (a, b_), c in d.items():
-        r = d.get((b_, a), 0)
-        if c > r:
-            out[(a, b_)] = c - r
-    return out, d
-
-
-def _table_names(node):
-    """list of tuples of names for a list literal of tuple/list literals of Names; None otherwise."""
-    if not isinstance(node, (ast.List, ast.Tuple)):
-        return None
-    out = []
-    for it in node.elts:
-        if not isinstance(it, (ast.Tuple, ast.List)) or not all(isinstance(x, ast.Name) for x in it.elts):
-            return None
-        out.append(tuple(x.id for x in it.elts))
-    return out
-
-
-def t1_refinement_tables(ctx):
+# ------------------------------------------------------------------------------------------------ harness
+def anchor(ctx, cls, meth):
+    """(function node, site) of a method of a public class of subdivision.py, wherever along its base classes it is defined"""
+    from ..core import AnalysisError
     repo = ctx.repo
-    n = 0
-    # -- midpoint refinements: loop_subdivision (4 triangles) and subdivide_triangles_3quads (3 quads)
-    for q, nfaces in (("SurfaceSubdivision.loop_subdivision", 4), ("SurfaceSubdivision.subdivide_triangles_3quads", 3)):
-        fn = repo.func(SUB, q)
-        site = ctx.site(SUB, fn)
-        # old face unpacking A,B,C = faces[f]; midpoints m = half[keyify(X,Y)]
-        old = None
-        mids = {}
-        centre = None
-        for st in au.stmts(fn.body):
-            if isinstance(st, ast.Assign) and isinstance(st.targets[0], ast.Tuple) and len(st.targets[0].elts) == 3 \
-                    and isinstance(st.value, ast.Subscript) and au.src(st.value.value).endswith(".faces"):
-                old = [x.id for x in st.targets[0].elts]
-            if isinstance(st, ast.Assign) and isinstance(st.targets[0], ast.Name) and isinstance(st.value, ast.Subscript):
-                k = st.value.slice
-                if isinstance(k, ast.Call) and au.call_tail(k) == "keyify" and len(k.args) == 2 and all(isinstance(a, ast.Name) for a in k.args):
-                    mids[st.targets[0].id] = (k.args[0].id, k.args[1].id)
-                elif isinstance(st.value.value, ast.Name) and isinstance(k, ast.Name) and any(
-                        isinstance(w, ast.Assign) and isinstance(w.targets[0], ast.Subscript) and au.src(w.targets[0].value) == st.value.value.id
-                        and isinstance(w.value, ast.Call) and au.call_tail(w.value) == "len" for w in au.stmts(fn.body)):
-                    centre = st.targets[0].id          # X[f] where X maps a face to the fresh index of its centre vertex
-        tables = [(t, nd) for nd in au.walk(fn) for t in [_table_names(nd)] if t and len(t) == nfaces and all(len(f) >= 3 for f in t)]
-        if old is None or len(mids) != 3 or not tables:
-            ctx.fail("C13-T1", site, f"{q}: refinement table over (A,B,C) and the three edge midpoints not found", "")
+    mod = repo.module(SUB)
+    c = repo.cls(SUB, cls)
+    ms = repo.methods(mod, c)
+    if meth not in ms:
+        raise AnalysisError(f"anchor method {cls}.{meth} not found (public entry point of the subdivision module)")
+    m, fn, owner = ms[meth]
+    # the site names the public class (stable when the method moves to a private base class), the line is the real one
+    return fn, ctx.site(SUB, f"{cls}.{meth}", fn)
+
+
+def explore(ctx, rule, site, label, setup, both_orders=True):
+    """outcomes of `setup(dec, reverse)` under both relative orders of the vertex symbols; None (after `undecided`) when the code
+    leaves the modelled subset"""
+    outs = []
+    for rev in ((False, True) if both_orders else (False,)):
+        try:
+            outs += E.explore(lambda dec, _r=rev: setup(dec, _r))
+        except Unknown as u:
+            ctx.undecided(rule, site, f"{label}: cannot be evaluated on the template mesh", str(u)[:300])
+            return None
+        except M.AnalysisMissing as u:
+            ctx.undecided(rule, site, f"{label}: method {u} not found", "")
+            return None
+        except RecursionError:
+            ctx.undecided(rule, site, f"{label}: cannot be evaluated on the template mesh", "recursion limit")
+            return None
+    return outs
+
+
+def report(ctx, site, problems, ok_rules, note, outs=(), label=""):
+    """problems -> findings (one per rule and construct).  Without problem: the rules are discharged, unless some path of the
+    evaluation left the modelled subset (then they are undecided)."""
+    hit = set()
+    for p in problems:
+        r = KIND_RULE.get(p.kind, p.kind)
+        hit.add(r)
+        ctx.fail(r, site, p.construct, p.what)
+    for o in outs:
+        for what, node in (getattr(o.ev, "suspects", []) if "C13-B1" in ok_rules else []):
+            if what.startswith("in-place") and o.unknown is None:
+                hit.add("C13-B1")
+                ctx.fail("C13-B1", site, f"{label or note}: `{au.src(node)}`: {what}",
+                         "the vertex positions are numpy arrays: `+=` / `/=` on a name bound to a stored position moves the original vertex (and the "
+                         "new vertex is the same array object): all original vertices must stay in place")
+    unk = [o.unknown for o in outs if o.unknown is not None]
+    for r in ok_rules:
+        if r in hit:
             continue
-        n += 1
-        faces, node = tables[0]
-        # refined boundary of the old triangle: X -> m(X,Y) -> Y for each side
-        want = Counter()
-        okmid = True
-        for i in range(3):
-            x, y = old[i], old[(i + 1) % 3]
-            m = [k for k, v in mids.items() if set(v) == {x, y}]
-            if len(m) != 1:
-                okmid = False
+        if unk:
+            if not hit:
+                ctx.undecided(r, site, f"{label or note}: cannot be evaluated on the template mesh", str(unk[0])[:300])
+        else:
+            ctx.ok(r, site, note)
+
+
+def raised_problem(label, r):
+    """classify an exception raised by the evaluated operation on a valid template"""
+    v = r.value
+    s = repr(v)
+    if isinstance(v, tuple) and v and v[0] == "KeyError":
+        return "C13-S1", f"{label}: the midpoint of a face side is looked up in a table built from an edge list that misses that side", \
+            f"KeyError on key {v[1]}: faces added by a quad split / a previous refinement step have sides that are not edges yet; " \
+            f"the edges must be completed before every edge is cut"
+    if "unpacking" in s:
+        return "C13-E1", f"{label}: faces are unpacked into a fixed number of vertices without a dominating triangulate()", \
+            f"{v}: every subdivision accepts the meshes its documentation admits; non-triangular faces are triangulated first"
+    if "IndexError" in s:
+        return "C13-I1", f"{label}: an index handed out for a new element is used before / without the element being stored", s
+    return None, f"{label}: raises on the template mesh", s
+
+
+CLASS_OF = {"SurfaceSubdivision": ("mouette.mesh.datatypes.surface", "SurfaceMesh"), "VolumeSubdivision": ("mouette.mesh.datatypes.volume", "VolumeMesh")}
+
+
+def input_mesh(w, cls, Ed, F, C=(), corners=True, n_vertices=None):
+    """an already built mesh object (class not analysed here): the containers, face corners filled, an opaque connectivity"""
+    mod, cname = CLASS_OF[cls]
+    mesh = Obj(w.cls(mod, cname), {"__opaque__": True, "__closed__": True})
+    mesh.fields["vertices"] = w.container("vertices", symbolic_vertices=True) if n_vertices is None else \
+        w.container("vertices", [w.pos(i) for i in range(n_vertices)])
+    mesh.fields["edges"] = w.container("edges", list(Ed))
+    w.attribute(mesh.fields["edges"], "hard_edges", {})
+    mesh.fields["faces"] = w.container("faces", list(F))
+    el = [v for f in F for v in f] if corners else []
+    ad = [i for i, f in enumerate(F) for _ in f] if corners else []
+    mesh.fields["face_corners"] = w.corners("face_corners", el, ad)
+    if cname == "VolumeMesh":
+        mesh.fields["cells"] = w.container("cells", list(C))
+        mesh.fields["cell_corners"] = w.corners("cell_corners", [v for c in C for v in c], [i for i, c in enumerate(C) for _ in c])
+        fkey = [frozenset(f) for f in F]
+        cf = [(fkey.index(frozenset(c[i] for i in t)), ci) for ci, c in enumerate(C) if len(c) == 4 for t in TET_FACES
+              if frozenset(c[i] for i in t) in fkey]
+        mesh.fields["cell_faces"] = w.corners("cell_faces", [x[0] for x in cf], [x[1] for x in cf])
+    mesh.fields["connectivity"] = w.stub_object("_Connectivity", mesh=mesh)
+    return mesh
+
+
+def sorted_pair(w, a, b):
+    return (a, b) if w.ev.nums.sign(w.ev.arith(ast.Sub(), b, a)) == 1 else (b, a)
+
+
+def world(ctx, dec, rev, build, hooks=None):
+    """(Ev, thunk) for hb_eval.explore: the template is built and the operation evaluated inside the thunk"""
+    w = M.World(ctx.repo, dec, hooks={**M.attr_hooks(), **(hooks or {})}, reverse=rev)
+    return w.ev, (lambda: build(w))
+
+
+def open_editor(w, faces, vertex_names, cls="SurfaceSubdivision", edges="complete", cells=(), enter=True):
+    """an editor of class `cls` opened (constructor + __enter__, both evaluated) on an already built template mesh"""
+    names = {}
+    for n in vertex_names:
+        names[n] = w.v(n)
+    F = [tuple(names[c] for c in f) for f in faces]
+    C = [tuple(names[c] for c in f) for f in cells]
+    Ed = []
+    if edges == "complete":
+        seen = set()
+        for f in F:
+            for a, b in M.directed_edges(f):
+                if frozenset((a, b)) not in seen:
+                    seen.add(frozenset((a, b)))
+                    Ed.append(sorted_pair(w, a, b))
+    else:
+        Ed = [sorted_pair(w, names[e[0]], names[e[1]]) for e in edges]
+    mesh = input_mesh(w, cls, Ed, F, C)
+    w.names, w.F, w.Ed, w.C, w.input = names, F, Ed, C, mesh
+    w.editor = w.ev.call(w.cls(SUBM, cls), [mesh], {})
+    if not isinstance(w.editor, Obj):
+        raise Unknown(f"{cls}(mesh) does not build an editor object")
+    if enter:
+        w.ev.call(w.method(w.editor, "__enter__"), [], {})
+    return w
+
+
+def edited(w):
+    m = w.editor.fields.get("mesh")
+    if not isinstance(m, Obj) or not all(k in m.fields for k in ("vertices", "faces", "edges")):
+        raise Unknown("editor.mesh is not the raw mesh data of the template")
+    return m
+
+
+# ------------------------------------------------------------------------------------------------ split_edge
+def split_edge_rule(ctx):
+    fn = ctx.repo.func(SUB, "split_edge")
+    site = ctx.site(SUB, fn)
+    label = "split_edge"
+
+    def setup(dec, rev):
+        log = []
+
+        def build(w):
+            A, B, C = w.v("A", "B", "C")
+            pl = Obj(w.cls("mouette.mesh.datatypes.linear", "PolyLine"), {"__opaque__": True})
+            pl.fields["vertices"] = w.container("vertices", symbolic_vertices=True)
+            pl.fields["edges"] = w.container("edges", [sorted_pair(w, A, B), sorted_pair(w, B, C)])
+            conn = pl.fields["connectivity"] = w.stub_object("_Connectivity", mesh=pl)
+            f = w.ev.lookup("split_edge", E.Frame(SUBM))
+            r = w.ev.call(f, [pl, 0], {})
+            return w, pl, r, log, (A, B, C), conn
+        return world(ctx, dec, rev, build, {("method", "_Connectivity", "clear"): lambda ev, o, a, k: log.append("clear")})
+    outs = explore(ctx, "C13-E1", site, label, setup)
+    if outs is None:
+        return
+    probs = []
+    cleared = True
+    for o in outs:
+        if o.unknown is not None:
+            continue
+        if o.raised is not None:
+            rule, c, wh = raised_problem(label, o.raised)
+            if rule is None:
+                o.unknown = Unknown(c + ": " + wh)
+            else:
+                probs.append(M.Problem(rule, c, wh))
+            continue
+        w, pl, r, log, (A, B, C), conn = o.value
+        ev = w.ev
+        V = w.data(pl.fields["vertices"])
+        Ed = [tuple(e) for e in w.data(pl.fields["edges"])]
+        if "clear" not in log:
+            # a path that edits the polyline without clearing its connectivity.  A connectivity object that was replaced, or any call
+            # on the polyline / its connectivity that is not followed here (it may reset the caches), leaves the question open.
+            conn0 = [x for x in ev.log if x[0] == "opaque-call" and x[1].cls.name in ("_Connectivity", "PolyLine")]
+            if pl.fields.get("connectivity") is not conn or conn0:
+                if conn0:
+                    o.unknown = Unknown(f"split_edge calls {conn0[0][2]}() on the polyline / its connectivity: may or may not reset the cached tables")
+            else:
+                cleared = False
+        if len(V.items) != 1:
+            probs.append(M.Problem("index", f"{label}: {len(V.items)} vertices are appended instead of one", ""))
+            continue
+        mid = M.affine(ev, V.items[0])
+        if mid != {w.pos(A).name: Fraction(1, 2), w.pos(B).name: Fraction(1, 2)}:
+            probs.append(M.Problem("position", f"{label}: the new vertex is not the midpoint of the split edge", f"it is placed at {V.items[0]}"))
+        new = ev.nums.norm(V.base)
+        want = Counter([frozenset((A, new)), frozenset((B, new)), frozenset((B, C))])
+        got = Counter(frozenset(e) for e in Ed)
+        idx = [x for e in Ed for x in e if M.classify_index(w, V, x)[0] == "bad"]
+        if idx:
+            probs.append(M.Problem("index", f"{label}: an edge refers to a vertex index that holds no vertex",
+                                   f"edges {Ed}; the new vertex has index {new}, found {idx[0]}"))
+        elif got != want:
+            probs.append(M.Problem("tiling", f"{label}: the two halves of the split edge are not (A,new) and (new,B)",
+                                   f"edges after splitting (A,B) of the polyline A-B-C: {[M.fmt_face(e) for e in Ed]}"))
+        elif frozenset(Ed[0]) != frozenset((A, new)) and frozenset(Ed[0]) != frozenset((B, new)) or len(Ed) != 3:
+            probs.append(M.Problem("tiling", f"{label}: the split edge is not replaced in place by one half, the other half appended", f"{Ed}"))
+        for e in Ed:
+            if len(e) == 2 and ev.nums.sign(ev.arith(ast.Sub(), e[1], e[0])) != 1:
+                probs.append(M.Problem("edges", f"{label}: an edge is stored without its low index first", f"edge {M.fmt_face(e)}"))
+        if r is not pl and r is not None:
+            pass
+    if not cleared:
+        probs.append(M.Problem("C13-E1", "split_edge does not clear the connectivity after its in-place edit",
+                               "the polyline is edited in place; on some path no `connectivity.clear()` runs, so cached adjacency / edge "
+                               "tables (whichever were already computed) would describe the unsplit polyline"))
+    report(ctx, site, probs, ["C13-I1", "C13-B1", "C13-T1", "C13-E1"], "split_edge on the template polyline A-B-C", outs, label)
+
+
+# ------------------------------------------------------------------------------------------------ in-place surface operations
+def _collect(label, outs, check):
+    """apply `check(value) -> [Problem]` to every decided path; exceptions raised by the operation are classified"""
+    probs = []
+    for o in outs:
+        if o.unknown is not None:
+            continue
+        if o.raised is not None:
+            rule, c, wh = raised_problem(label, o.raised)
+            if rule is None:
+                o.unknown = Unknown(c + ": " + wh)
+            else:
+                probs.append(M.Problem(rule, c, wh))
+            continue
+        try:
+            probs += check(o.value)
+        except Unknown as u:
+            o.unknown = u
+    # one finding per construct
+    seen, out = set(), []
+    for p in probs:
+        if (p.kind, p.construct) not in seen:
+            seen.add((p.kind, p.construct))
+            out.append(p)
+    return out
+
+
+POLY = {3: "ABC", 4: "ABCD", 5: "ABCDE", 6: "ABCDEF", 7: "ABCDEFG"}
+ORDER = "DXAFBGEC"          # creation order of the vertex symbols (= relative order of the indices): not the order along the faces
+
+
+def surface_ops(ctx):
+    repo = ctx.repo
+    # ---- triangulate_face on faces of 3..7 sides (next to a triangle sharing side A-B)
+    fn, site = anchor(ctx, "SurfaceSubdivision", "triangulate_face")
+    allp, allouts = [], []
+    for n in (3, 4, 5, 6, 7):
+        label = f"triangulate_face on a face with {n} sides"
+
+        def setup(dec, rev, n=n):
+            def build(w):
+                open_editor(w, [POLY[n], "BAX"], ORDER)
+                w.ev.call(w.method(w.editor, "triangulate_face"), [0], {})
+                return w
+            return world(ctx, dec, rev, build)
+        outs = explore(ctx, "C13-D1", site, label, setup)
+        if outs is None:
+            return
+
+        def check(w, n=n, label=label):
+            raw = edited(w)
+            F = [tuple(f) for f in w.data(raw.fields["faces"])]
+            old = w.F[0]
+            if n == 3:
+                if F != [tuple(x) for x in w.F] or w.data(raw.fields["vertices"]).items:
+                    return [M.Problem("arity", "triangulate_face modifies a face that is already a triangle", f"faces become {[M.fmt_face(f) for f in F]}")]
+                return []
+            rest = [f for f in F if f != tuple(w.F[1])]
+            if any(len(f) != 3 for f in rest):
+                return [M.Problem("arity", f"triangulate_face leaves a face with {n} sides untriangulated" if len(rest) == 1 and rest[0] == tuple(old)
+                                  else f"triangulate_face turns a face with {n} sides into faces that are not all triangles",
+                                  f"result {[M.fmt_face(f) for f in rest]}: every non-triangular face must be triangulated")]
+            ps = M.check_surface(w, w.F, raw, label, centres_of=[old] if n > 4 else [], midpoints=False, edges_old={frozenset(e) for e in w.Ed})
+            if n == 4 and w.data(raw.fields["vertices"]).items:
+                ps.append(M.Problem("arity", "triangulate_face adds a vertex to split a quad instead of cutting it along a diagonal", ""))
+            return ps
+        allp += _collect(label, outs, check)
+        allouts += outs
+    report(ctx, site, allp, ["C13-D1", "C13-T1", "C13-I1", "C13-B1"], "triangulate_face on faces with 3..7 sides", allouts, "triangulate_face")
+    # ---- split_face_as_fan
+    fn, site = anchor(ctx, "SurfaceSubdivision", "split_face_as_fan")
+    allp, allouts = [], []
+    for n in (3, 4, 5, 6):
+        label = f"split_face_as_fan on a face with {n} sides"
+
+        def setup(dec, rev, n=n):
+            def build(w):
+                open_editor(w, [POLY[n], "BAX"], ORDER)
+                w.ev.call(w.method(w.editor, "split_face_as_fan"), [0], {})
+                return w
+            return world(ctx, dec, rev, build)
+        outs = explore(ctx, "C13-T1", site, label, setup)
+        if outs is None:
+            return
+
+        def check(w, n=n, label=label):
+            raw = edited(w)
+            ps = M.check_surface(w, w.F, raw, label, centres_of=[w.F[0]], midpoints=False, expect_arity=3, expect_count=n + 1,
+                                 edges_old={frozenset(e) for e in w.Ed})
+            V = w.data(raw.fields["vertices"])
+            if not ps and len(V.items) != 1:
+                ps.append(M.Problem("index", f"split_face_as_fan appends {len(V.items)} vertices instead of one", ""))
+            return ps
+        allp += _collect(label, outs, check)
+        allouts += outs
+    report(ctx, site, allp, ["C13-T1", "C13-I1", "C13-B1"], "split_face_as_fan on faces with 3..6 sides", allouts, "split_face_as_fan")
+    # ---- triangulate(): every face of a mixed mesh becomes triangles
+    fn, site = anchor(ctx, "SurfaceSubdivision", "triangulate")
+    label = "triangulate() on a mesh with a triangle, a quad and a pentagon"
+
+    def setup(dec, rev):
+        def build(w):
+            open_editor(w, ["ABCD", "BAX", "DCEFG"], ORDER)
+            w.ev.call(w.method(w.editor, "triangulate"), [], {})
+            return w
+        return world(ctx, dec, rev, build)
+    outs = explore(ctx, "C13-E1", site, label, setup)
+    if outs is None:
+        return
+
+    def check(w):
+        raw = edited(w)
+        F = [tuple(f) for f in w.data(raw.fields["faces"])]
+        if any(len(f) != 3 for f in F):
+            bad = [f for f in F if len(f) != 3][0]
+            return [M.Problem("C13-E1", "triangulate() does not triangulate every non-triangular face",
+                              f"a face with {len(bad)} sides is left: {M.fmt_face(bad)}")]
+        return M.check_surface(w, w.F, raw, "triangulate()", centres_of=[w.F[2]], midpoints=False, edges_old={frozenset(e) for e in w.Ed})
+    report(ctx, site, _collect(label, outs, check), ["C13-E1", "C13-T1"], label, outs, "triangulate()")
+
+
+# ------------------------------------------------------------------------------------------------ refinements that build new data
+def surface_refinements(ctx):
+    repo = ctx.repo
+    TRI = ["ABC", "CBD"]                     # two triangles sharing side B-C
+    QUAD = ["ABCD", "BAX"]                   # a quad next to a triangle: splitting the quad adds a face side that is not an edge yet
+    specs = [
+        ("SurfaceSubdivision.loop_subdivision", "loop_subdivision", [], dict(expect_arity=3, per_face=4, centres=False, edges_exact=True)),
+        ("SurfaceSubdivision.subdivide_triangles_3quads", "subdivide_triangles_3quads", [], dict(expect_arity=4, per_face=3, centres=True, edges_exact=False)),
+        ("SurfaceSubdivision.subdivide_triangles_6", "subdivide_triangles_6", [], dict(expect_arity=3, per_face=6, centres=True, edges_exact=False)),
+    ]
+    for q, meth, args, sp in specs:
+        fn, site = anchor(ctx, *q.split("."))
+        allp, allouts = [], []
+        # (a) on a triangle mesh: the documented refinement
+        label = f"{meth} on two triangles sharing a side"
+
+        def setup(dec, rev, meth=meth, args=args):
+            def build(w):
+                open_editor(w, TRI, ORDER)
+                w.ev.call(w.method(w.editor, meth), list(args), {})
+                return w
+            return world(ctx, dec, rev, build)
+        outs = explore(ctx, "C13-T1", site, label, setup)
+        if outs is None:
+            continue
+
+        def check(w, sp=sp, label=label):
+            raw = edited(w)
+            ps = M.check_surface(w, w.F, raw, label, centres_of=w.F if sp["centres"] else [], midpoints=True, expect_arity=sp["expect_arity"],
+                                 expect_count=sp["per_face"] * len(w.F), edges_exact=sp["edges_exact"])
+            # a refinement of triangles builds new data: the element containers of the mesh passed in stay as they were
+            try:
+                vin, fin_ = w.data(w.input.fields["vertices"]), [tuple(f) for f in w.data(w.input.fields["faces"])]
+            except Unknown:
+                return ps
+            if len(vin.items) or fin_ != [tuple(f) for f in w.F]:
+                ps.append(M.Problem("C13-H1", f"{label}: the refinement writes into the containers of the mesh that was passed in",
+                                    f"the input mesh ends with {len(vin.items)} extra vertex(es) and faces {[M.fmt_face(f) for f in fin_[:3]]}...: it is neither "
+                                    "unchanged nor equal to the result (a container of the new data aliases one of the input)"))
+            return ps
+        allp += _collect(label, outs, check)
+        allouts += outs
+        # (b) on a mesh with a quad (and with two rounds): faces are triangulated first and every face side finds its midpoint
+        for faces, a2, lab in ((QUAD, args, f"{meth} on a mesh with a quad"), (["ABC"], [2], f"{meth} applied twice")):
+            label = lab
+
+            def setup(dec, rev, meth=meth, faces=faces, a2=a2):
+                def build(w):
+                    open_editor(w, faces, ORDER)
+                    w.ev.call(w.method(w.editor, meth), list(a2), {})
+                    return w
+                return world(ctx, dec, rev, build)
+            if meth == "subdivide_triangles_3quads" and a2 == [2]:
                 continue
-            want[(x, m[0])] += 1
-            want[(m[0], y)] += 1
-        bnd, d = _boundary(faces)
-        uses = set(x for f in faces for x in f)
-        allowed = set(old) | set(mids) | ({centre} if centre else set())
-        ok = okmid and bnd == want and uses <= allowed and all(c <= 1 for c in d.values())
-        ctx.check(ok, "C13-T1", ctx.site(SUB, fn, node),
-                  f"{q}: the new faces {faces} do not tile the old triangle ({','.join(old)}) with its orientation",
-                  f"oriented boundary of the new faces is {sorted(bnd.elements())}, the refined boundary of the old face is "
-                  f"{sorted(want.elements())}; interior edges must cancel and every midpoint must lie on its own edge",
-                  note=f"{nfaces} faces tile the triangle")
-        if q.endswith("loop_subdivision"):
-            etabs = [t for nd in au.walk(fn) for t in [_table_names(nd)] if t and all(len(f) == 2 for f in t)]
-            und = {frozenset(e) for e in d}
-            ok = bool(etabs) and {frozenset(e) for e in etabs[0]} == und and len(etabs[0]) == len(und)
-            ctx.check(ok, "C13-T1", site, f"{q}: the declared new edges are not exactly the edges of the new triangles",
-                      f"edges of the new faces: {sorted(tuple(sorted(e)) for e in und)}")
-    # -- quad split in triangulate_face
-    fn = repo.func(SUB, "SurfaceSubdivision.triangulate_face")
-    old = None
-    for st in au.stmts(fn.body):
-        if isinstance(st, ast.Assign) and isinstance(st.targets[0], ast.Tuple) and len(st.targets[0].elts) == 4:
-            old = [x.id for x in st.targets[0].elts]
-            blk, _ = au.enclosing_block(st)
-            faces = []
-            for s in blk:
-                for nd in au.walk(s):
-                    if isinstance(nd, (ast.List, ast.Tuple)) and len(nd.elts) == 3 and all(isinstance(x, ast.Name) and x.id in old for x in nd.elts):
-                        faces.append(tuple(x.id for x in nd.elts))
-            bnd, d = _boundary(faces)
-            want = Counter({(old[i], old[(i + 1) % 4]): 1 for i in range(4)})
-            n += 1
-            ctx.check(len(faces) == 2 and bnd == want, "C13-T1", ctx.site(SUB, fn, st),
-                      f"triangulate_face: the two triangles {faces} do not tile the quad ({','.join(old)}) with its orientation",
-                      f"oriented boundary {sorted(bnd.elements())} vs {sorted(want.elements())}", note="quad split")
-    if old is None:
-        ctx.fail("C13-T1", ctx.site(SUB, fn), "triangulate_face: quad unpacking not found", "")
-    # -- fan: faces[id] = [f[0], f[1], c]; for k in range(1, nf): append([f[k], f[(k+1)%nf], c])
-    fn = repo.func(SUB, "SurfaceSubdivision.split_face_as_fan")
-    site = ctx.site(SUB, fn)
-    b = sym.Bindings(fn)
-    ok0 = okk = False
-    row = "f"
-    for st in au.stmts(fn.body):
-        if isinstance(st, ast.Assign) and isinstance(st.targets[0], ast.Subscript) and au.src(st.targets[0].value).endswith(".faces") \
-                and isinstance(st.value, (ast.List, ast.Tuple)) and len(st.value.elts) == 3:
-            e = st.value.elts
-            if isinstance(e[0], ast.Subscript) and isinstance(e[0].value, ast.Name):
-                row = e[0].value.id
-            ok0 = au.src(e[0]) == f"{row}[0]" and au.src(e[1]) == f"{row}[1]" and isinstance(e[2], ast.Name)
-            cname = e[2].id if isinstance(e[2], ast.Name) else None
-        if isinstance(st, ast.For) and isinstance(st.iter, ast.Call) and au.call_tail(st.iter) == "range" and len(st.iter.args) == 2 \
-                and au.const(st.iter.args[0]) == 1 and isinstance(st.target, ast.Name):
-            k = st.target.id
-            nsrc = au.src(st.iter.args[1])
-            n_ok = au.src(b.resolve(st.iter.args[1], at=st, keep=(row,))) == f"len({row})"
-            for c in au.calls(st):
-                if au.call_tail(c) == "append" and au.src(c.func.value).endswith(".faces") and isinstance(c.args[0], (ast.List, ast.Tuple)) \
-                        and len(c.args[0].elts) == 3:
-                    e = c.args[0].elts
-                    offs = [sym.mod_offset(x.slice, k, nsrc) if isinstance(x, ast.Subscript) and au.src(x.value) == row else None for x in e[:2]]
-                    okk = n_ok and offs == [0, 1] and isinstance(e[2], ast.Name)
-    n += 1
-    ctx.check(ok0 and okk, "C13-T1", site, "split_face_as_fan: the fan is not (f[k], f[k+1 mod n], centre) for k = 0 .. n-1",
-              "the triangles of the fan must tile the face with its orientation, one per side", note="fan of n triangles")
-    # -- split_cell_as_fan: k-th new cell = old cell with its k-th vertex replaced by the centre
-    fn = repo.func(SUB, "VolumeSubdivision.split_cell_as_fan")
-    site = ctx.site(SUB, fn)
-    old = None
-    cells = []
-    for st in au.stmts(fn.body):
-        if isinstance(st, ast.Assign) and isinstance(st.targets[0], ast.Tuple) and len(st.targets[0].elts) == 4 \
-                and isinstance(st.value, ast.Subscript) and au.src(st.value.value).endswith(".cells"):
-            old = [x.id for x in st.targets[0].elts]
-        if isinstance(st, ast.Assign) and isinstance(st.targets[0], ast.Subscript) and au.src(st.targets[0].value).endswith(".cells") \
-                and isinstance(st.value, (ast.Tuple, ast.List)):
-            cells.append(tuple(au.src(x) for x in st.value.elts))
-        if isinstance(st, ast.AugAssign) and au.src(st.target).endswith(".cells"):
-            t = _table_names(st.value)
-            if t:
-                cells += t
-    n += 1
-    ok = old is not None and len(cells) == 4
-    if ok:
-        centre = (set(x for c in cells for x in c) - set(old))
-        ok = len(centre) == 1
-        if ok:
-            ce = centre.pop()
-            want = {tuple(ce if j == i else old[j] for j in range(4)) for i in range(4)}
-            ok = set(cells) == want
-    ctx.check(ok, "C13-T1", site, f"split_cell_as_fan: the four new cells {cells} are not the old cell with one vertex replaced by the centre each",
-              "each new tetrahedron keeps the orientation of the old one and together they tile it", note="4 tets tile the cell")
-    # -- split_tet_from_face_center: faces
-    fn = repo.func(SUB, "VolumeSubdivision.split_tet_from_face_center")
-    site = ctx.site(SUB, fn)
-    old = None
-    faces = []
-    for st in au.stmts(fn.body):
-        if isinstance(st, ast.Assign) and isinstance(st.targets[0], ast.Tuple) and len(st.targets[0].elts) == 3 and isinstance(st.value, ast.Name):
-            old = [x.id for x in st.targets[0].elts]
-        v = None
-        if isinstance(st, ast.Assign) and isinstance(st.targets[0], ast.Subscript) and au.src(st.targets[0].value).endswith(".faces"):
-            v = st.value
-        if isinstance(st, ast.Expr) and isinstance(st.value, ast.Call) and au.call_tail(st.value) == "append" \
-                and au.src(st.value.func.value).endswith(".faces"):
-            v = st.value.args[0]
-        if isinstance(v, (ast.List, ast.Tuple)) and all(isinstance(x, ast.Name) for x in v.elts):
-            faces.append(tuple(x.id for x in v.elts))
-    n += 1
-    ok = old is not None and len(faces) == 3
-    if ok:
-        bnd, d = _boundary(faces)
-        want = Counter({(old[i], old[(i + 1) % 3]): 1 for i in range(3)})
-        ok = bnd == want and all(c <= 1 for c in d.values())
-    ctx.check(ok, "C13-T1", site, f"split_tet_from_face_center: the three triangles {faces} do not tile the split face with its orientation", "",
-              note="3 triangles tile the face")
-    # the tets: each of the 3 vertices of the face is replaced by the centre, the opposite vertex (local index of the face in the cell) is skipped
-    ok = False
-    fresh = [t.id for st in au.stmts(fn.body) if isinstance(st, ast.Assign) and isinstance(st.value, ast.Call) and au.call_tail(st.value) == "len"
-             and st.value.args and au.src(st.value.args[0]).endswith(".vertices") for t in st.targets if isinstance(t, ast.Name)]
-    opp = [t.id for st in au.stmts(fn.body) if isinstance(st, ast.Assign) and isinstance(st.value, ast.Call)
-           and au.call_tail(st.value) == "in_cell_face_index" for t in st.targets if isinstance(t, ast.Name)]
-    for st in au.stmts(fn.body):
-        if isinstance(st, ast.For) and isinstance(st.iter, ast.Call) and au.call_tail(st.iter) == "range" and au.const(st.iter.args[0]) == 4 \
-                and isinstance(st.target, ast.Name):
-            i = st.target.id
-            rep = [s for s in au.stmts(st.body) if isinstance(s, ast.Assign) and isinstance(s.targets[0], ast.Subscript)
-                   and au.src(s.targets[0].slice) == i and au.src(s.value) in fresh]
-            cp = [s for s in au.stmts(st.body) if isinstance(s, ast.Assign) and isinstance(s.value, (ast.ListComp, ast.Call))]
-            conds = [au.canon_test(t, p) for s in rep for t, p in au.guards(s, stop=st)]
-            skip_ok = len(opp) == 1 and len(conds) == 1 and conds[0] in (au.canon_test(ast.parse(f"{i} != {opp[0]}", mode="eval").body),)
-            ok = len(rep) == 1 and bool(cp) and skip_ok
-    ctx.check(ok, "C13-T1", site, "split_tet_from_face_center: new cells are not `copy of the cell with vertex i replaced by the centre` for every i but the opposite vertex", "")
-    ctx.require_count("C13-T1 refinement tables", n, 6)
+            outs = explore(ctx, "C13-S1", site, label, setup, both_orders=False)
+            if outs is None:
+                continue
+
+            def check(w, sp=sp, label=label, twice=(a2 == [2])):
+                raw = edited(w)
+                return M.check_surface(w, w.F, raw, label, expect_arity=sp["expect_arity"], edges_exact=sp["edges_exact"], single_round=False,
+                                       expect_count=(sp["per_face"] ** 2 * len(w.F)) if twice else None)
+            allp += _collect(label, outs, check)
+            allouts += outs
+        report(ctx, site, allp, ["C13-T1", "C13-I1", "C13-B1", "C13-S1", "C13-E1", "C13-H1"], f"{meth} on template meshes", allouts, meth)
 
 
-# ---------------------------------------------------------------------------- E1
-def e1_protocol(ctx):
+# ------------------------------------------------------------------------------------------------ editing protocol
+CONTAINERS = {"SurfaceSubdivision": ("vertices", "edges", "faces", "face_corners"),
+              "VolumeSubdivision": ("vertices", "edges", "faces", "face_corners", "cells", "cell_corners", "cell_faces")}
+
+
+def _snapshot(w, mesh, names):
+    snap = {}
+    for n in names:
+        c = mesh.fields[n]
+        lists = {k: (list(v.items) if isinstance(v, SList) else list(v)) for k, v in c.fields.items() if isinstance(v, (list, SList))}
+        snap[n] = lists
+    return snap
+
+
+MUTATORS = ("clear", "append", "extend", "pop", "remove", "insert", "sort", "reverse", "__iadd__", "__setitem__", "__delitem__")
+
+
+def mutator_hooks(log):
+    """hooks that record (container, mutator name, calling statement) and then evaluate the real method of the container class"""
+    from ..rules.hb_eval import FuncVal, Native
+    hooks = {}
+    for cname in ("DataContainer", "CornerDataContainer"):
+        for m in MUTATORS:
+            def h(ev, obj, args, kw, _m=m):
+                caller = ev.frames[-1].cur if ev.frames else None
+                log.append((obj, _m, caller))
+                owner, node = ev.class_attr(obj.cls, _m)
+                if not isinstance(node, ast.FunctionDef):
+                    raise Raised(("AttributeError", obj.cls.name, _m))
+                return ev.call_function(FuncVal(owner.modname, node, bound=obj, cls=owner), args, kw)
+            hooks[("method", cname, m)] = h
+    return hooks
+
+
+def editor_protocol(ctx):
     repo = ctx.repo
     for cls, dim in (("SurfaceSubdivision", 2), ("VolumeSubdivision", 3)):
-        fn = repo.func(SUB, cls + ".__exit__")
-        site = ctx.site(SUB, fn)
-        seq = []
-        for st in fn.body:
-            if isinstance(st, ast.Expr) and isinstance(st.value, ast.Call) and au.src(st.value.func) == "self.mesh.prepare":
-                seq.append("prepare")
-            if isinstance(st, ast.Assign) and au.is_self_attr(st.targets[0], "mesh") and isinstance(st.value, ast.Call) \
-                    and au.call_tail(st.value) == "_instanciate_raw_mesh_data":
-                a = st.value.args
-                seq.append(("inst", au.src(a[0]) if a else None, au.const(a[1]) if len(a) > 1 else None))
-        ctx.check(seq == ["prepare", ("inst", "self.mesh", dim)], "C13-E1", site,
-                  f"{cls}.__exit__ does not `self.mesh.prepare(); self.mesh = _instanciate_raw_mesh_data(self.mesh, {dim})`",
-                  "all connectivity answers of the result must describe the refined mesh: the raw data must be prepared and "
-                  f"re-instantiated as a dimension-{dim} mesh on exit (got {seq})", note=f"{cls}: prepare + re-instantiate({dim})")
-        fn = repo.func(SUB, cls + ".__enter__")
-        ok = any(isinstance(st, ast.Assign) and au.is_self_attr(st.targets[0], "mesh") and isinstance(st.value, ast.Call)
-                 and au.call_tail(st.value) == "RawMeshData" for st in fn.body) and \
-            any(isinstance(st, ast.Return) and au.src(st.value) == "self" for st in fn.body)
-        ctx.check(ok, "C13-E1", ctx.site(SUB, fn), f"{cls}.__enter__ does not wrap the mesh into RawMeshData and return the editor", "")
-    # triangle-only code dominated by triangulate()
-    cls = repo.cls(SUB, "SurfaceSubdivision")
-    tri_methods = set()
-    needs = {}
-    for fn in [st for st in cls.body if isinstance(st, ast.FunctionDef)]:
-        for st in au.stmts(fn.body):
-            if isinstance(st, ast.Assign) and isinstance(st.targets[0], ast.Tuple) and len(st.targets[0].elts) == 3 \
-                    and isinstance(st.value, ast.Subscript) and au.src(st.value.value) == "self.mesh.faces":
-                needs[fn.name] = st
-    n = 0
-    for name, st in sorted(needs.items()):
-        fn = next(f for f in cls.body if isinstance(f, ast.FunctionDef) and f.name == name)
-        first_calls = [s for s in fn.body if isinstance(s, ast.Expr) and isinstance(s.value, ast.Call)
-                       and au.src(s.value.func) == "self.triangulate" and s.lineno < st.lineno]
-        n += 1
-        ctx.check(bool(first_calls), "C13-E1", ctx.site(SUB, fn),
-                  f"SurfaceSubdivision.{name} unpacks faces into three vertices without a dominating self.triangulate()",
-                  "every subdivision accepts the meshes its documentation admits: non-triangular faces are triangulated first",
-                  note=f"{name}: triangulate() first")
-    ctx.require_count("C13-E1 triangle-only methods", n, 2)
-    fn = repo.func(SUB, "SurfaceSubdivision.subdivide_triangles_6")
-    seq = [au.call_tail(c) for c in sorted(au.calls(fn), key=lambda c: c.lineno) if au.is_self_attr(c.func)]
-    ctx.check(seq == ["subdivide_triangles_3quads", "triangulate"], "C13-E1", ctx.site(SUB, fn),
-              f"subdivide_triangles_6 performs {seq} instead of 3-quads then triangulate", "1-to-6 refinement = 3 quads per triangle, each split in two")
-    # triangulate visits every face and triangulates the non-triangles
-    fn = repo.func(SUB, "SurfaceSubdivision.triangulate")
-    ok = False
-    for st in fn.body:
-        if isinstance(st, ast.For) and au.src(st.iter) in ("self.mesh.id_faces", "range(len(self.mesh.faces))"):
-            f = st.target.id
-            for s in st.body:
-                if isinstance(s, ast.If) and isinstance(s.test, ast.Compare) and au.src(s.test.left) == f"len(self.mesh.faces[{f}])" \
-                        and ((isinstance(s.test.ops[0], ast.NotEq) and au.const(s.test.comparators[0]) == 3)
-                             or (isinstance(s.test.ops[0], ast.Gt) and au.const(s.test.comparators[0]) == 3)):
-                    ok = any(au.call_tail(c) == "triangulate_face" and au.src(c.args[0]) == f for c in au.calls(s))
-    ctx.check(ok, "C13-E1", ctx.site(SUB, fn), "triangulate() does not call triangulate_face on every non-triangular face", "")
-    # split_edge: connectivity cleared after the edit
-    fn = repo.func(SUB, "split_edge")
-    p = au.params(fn)[0]
-    muts = [st for st in fn.body if any(au.call_tail(c) == "append" and au.src(c.func.value).startswith(p + ".") for c in au.calls(st))
-            or (isinstance(st, (ast.Assign, ast.AugAssign)) and isinstance(au.assign_targets(st)[0], ast.Subscript)
-                and au.src(au.assign_targets(st)[0].value).startswith(p + "."))]
-    clears = [st for st in fn.body if isinstance(st, ast.Expr) and isinstance(st.value, ast.Call)
-              and au.src(st.value.func) == f"{p}.connectivity.clear"]
-    ok = bool(muts) and bool(clears) and clears[-1].lineno > muts[-1].lineno
-    ctx.check(ok, "C13-E1", ctx.site(SUB, fn), "split_edge does not clear the connectivity after its last in-place edit",
-              "stale connectivity would describe the unsplit polyline")
-    # split_edge: the two halves are (A,C) and (B,C)
-    b = sym.Bindings(fn)
-    halves = []
-    for st in fn.body:
-        v = None
-        if isinstance(st, ast.Assign) and isinstance(st.targets[0], ast.Subscript) and au.src(st.targets[0].value) == f"{p}.edges":
-            v = st.value
-        elif isinstance(st, ast.AugAssign) and isinstance(st.target, ast.Subscript) and au.src(st.target.value) == f"{p}.edges":
-            v = st.value
-        elif isinstance(st, ast.Expr) and isinstance(st.value, ast.Call) and au.call_tail(st.value) == "append" \
-                and au.src(st.value.func.value) == f"{p}.edges":
-            v = st.value.args[0]
-        if v is not None and isinstance(v, ast.Call) and au.call_tail(v) == "keyify":
-            halves.append(frozenset(au.src(a) for a in v.args))
-    ends = None
-    for st in fn.body:
-        if isinstance(st, ast.Assign) and isinstance(st.targets[0], ast.Tuple) and len(st.targets[0].elts) == 2:
-            ends = [x.id for x in st.targets[0].elts]
-    newv = next((st.targets[0].id for st in fn.body if isinstance(st, ast.Assign) and _is_len_of_container(st.value)
-                 and isinstance(st.targets[0], ast.Name)), None)
-    ok = ends and newv and sorted(halves, key=sorted) == sorted([frozenset({ends[0], newv}), frozenset({ends[1], newv})], key=sorted)
-    ctx.check(bool(ok), "C13-E1", ctx.site(SUB, fn), f"split_edge: the two halves are {[sorted(h) for h in halves]}",
-              "splitting edge (A,B) at new vertex C must produce the edges (A,C) and (C,B)")
+        f_enter, s_enter = anchor(ctx, cls, "__enter__")
+        f_exit, s_exit = anchor(ctx, cls, "__exit__")
+        names = CONTAINERS[cls]
 
+        def setup(dec, rev, cls=cls):
+            inst = []
+            mutlog = []
 
-# ---------------------------------------------------------------------------- H1
-MUTATORS = {"clear", "append", "extend", "pop", "remove", "insert", "sort", "reverse"}
+            def h_inst(ev, args, kw):
+                o = Obj(w_box[0].cls("mouette.mesh.datatypes.base", "Mesh"), {"__opaque__": True, "__inst__": (args[0] if args else kw.get("mesh_data"),
+                                                                              args[1] if len(args) > 1 else kw.get("dim"))})
+                inst.append(o)
+                return o
+            w_box = []
 
-
-def h1_input_not_half_updated(ctx):
-    repo = ctx.repo
-    n = 0
-    for cls in ("SurfaceSubdivision", "VolumeSubdivision"):
-        fn = repo.func(SUB, cls + ".__enter__")
-        shares = any(isinstance(st, ast.Assign) and au.is_self_attr(st.targets[0], "mesh") and isinstance(st.value, ast.Call)
-                     and au.call_tail(st.value) == "RawMeshData" and st.value.args and au.src(st.value.args[0]) == "self.mesh"
-                     for st in fn.body)
-        # does RawMeshData(mesh) share the containers?  (re-derived from RawMeshData.__init__)
-        init = repo.func("mesh.mesh_data", "RawMeshData.__init__")
-        shared = {t.attr for st in au.stmts(init.body) for t in au.assign_targets(st) if au.is_self_attr(t)
-                  and isinstance(st.value, ast.IfExp) and au.src(st.value.orelse).startswith("mesh.")}
-        for st in au.stmts(fn.body):
-            for c in au.calls(st) if isinstance(st, ast.Expr) else []:
-                if isinstance(c.func, ast.Attribute) and c.func.attr in MUTATORS and isinstance(c.func.value, ast.Attribute) \
-                        and au.src(c.func.value.value) == "self.mesh":
-                    cont = c.func.value.attr
-                    n += 1
-                    ctx.check(not (shares and cont in shared), "C13-H1", ctx.site(SUB, fn, c),
-                              f"{cls}.__enter__ calls {cont}.{c.func.attr}() on a container shared with the input mesh",
-                              f"RawMeshData(mesh) shares the mesh's containers: `{au.src(c)}` empties the *input* mesh's {cont} "
-                              f"(the mesh passed in is left with faces but no corners - half-updated, neither unchanged nor equal to the result)")
-        if n == 0:
-            ctx.ok("C13-H1", ctx.site(SUB, fn), f"{cls}.__enter__ does not mutate shared containers")
-    # wrapper returns the re-instantiated mesh
-    fn = repo.func(SUB, "split_double_boundary_edges_triangles")
-    site = ctx.site(SUB, fn)
-    p = au.params(fn)[0]
-    withs = [st for st in au.stmts(fn.body) if isinstance(st, ast.With)]
-    alias_name = None
-    for w in withs:
-        for it in w.items:
-            if isinstance(it.context_expr, ast.Call) and au.call_tail(it.context_expr) == "SurfaceSubdivision" and it.optional_vars is not None:
-                alias_name = it.optional_vars.id
-    rets = [st for st in au.stmts(fn.body) if isinstance(st, ast.Return) and st.value is not None]
-    if alias_name and rets:
-        last = rets[-1]
-        rebinds = any(isinstance(st, ast.Assign) and isinstance(st.targets[0], ast.Name) and st.targets[0].id == p
-                      and au.src(st.value) == f"{alias_name}.mesh" for st in au.stmts(fn.body))
-        ok = au.src(last.value) == f"{alias_name}.mesh" or rebinds
-        ctx.check(ok, "C13-H1", ctx.site(SUB, fn, last),
-                  "split_double_boundary_edges_triangles returns its input mesh instead of the mesh re-instantiated by the editing block",
-                  "after the editing block the refined, valid mesh is the editor's; the object passed in has new faces but stale "
-                  "corners and connectivity (half-updated)")
-    else:
-        ctx.fail("C13-H1", site, "split_double_boundary_edges_triangles no longer edits through `with SurfaceSubdivision(mesh) as ...`", "")
-
-
-# ---------------------------------------------------------------------------- S1
-def _adds_faces_without_edges(fn):
-    """does the method store / append face rows into self.mesh.faces without appending edges in the same block?"""
-    for st in au.stmts(fn.body):
-        is_face_write = (isinstance(st, ast.Expr) and isinstance(st.value, ast.Call) and au.call_tail(st.value) == "append"
-                         and au.src(st.value.func.value) == "self.mesh.faces") or \
-                        (isinstance(st, ast.Assign) and isinstance(st.targets[0], ast.Subscript) and au.src(st.targets[0].value) == "self.mesh.faces")
-        if is_face_write:
-            fnbody_edges = any(au.call_tail(c) in ("append", "extend") and au.src(c.func.value) == "self.mesh.edges" for c in au.calls(fn))
-            blk, _ = au.enclosing_block(st)
-            same_block = any(au.call_tail(c) in ("append",) and au.src(c.func.value) == "self.mesh.edges" for s in blk for c in au.calls(s))
-            if not same_block:
-                # edges appended elsewhere in the same straight-line function body (split_face_as_fan) also count
-                top_level = any(any(au.call_tail(c) == "append" and au.src(c.func.value) == "self.mesh.edges" for c in au.calls(s)) for s in fn.body)
-                if not top_level:
-                    return True
-    return False
-
-
-def _rebinds_mesh_without_edges(fn):
-    """`self.mesh = X` where X is a fresh RawMeshData whose edges are never filled in this method"""
-    for st in au.stmts(fn.body):
-        if isinstance(st, ast.Assign) and au.is_self_attr(st.targets[0], "mesh") and isinstance(st.value, ast.Name):
-            x = st.value.id
-            filled = any((isinstance(s, ast.AugAssign) and au.src(s.target) == f"{x}.edges") or
-                         any(au.call_tail(c) in ("append", "extend") and au.src(c.func.value) == f"{x}.edges" for c in au.calls(s))
-                         for s in au.stmts(fn.body))
-            if not filled:
-                return True
-    return False
-
-
-def s1_edge_completeness(ctx):
-    from ..flow import Flow, TOP
-    repo = ctx.repo
-    cls = repo.cls(SUB, "SurfaceSubdivision")
-    methods = {st.name: st for st in cls.body if isinstance(st, ast.FunctionDef)}
-    # summaries, to a fixpoint over self-calls: may the method leave faces whose sides are not all edges?
-    breaks = {n: (_adds_faces_without_edges(f) or _rebinds_mesh_without_edges(f)) for n, f in methods.items()}
-    completes_last = {}
-    changed = True
-    while changed:
-        changed = False
-        for n, f in methods.items():
-            if breaks[n]:
+            def build(w):
+                w_box.append(w)
+                cells = ["ABCD"] if cls == "VolumeSubdivision" else []
+                open_editor(w, ["ABC", "CBD"], "DABC", cls=cls, cells=cells, enter=False)
+                before = _snapshot(w, w.input, CONTAINERS[cls])
+                r = w.ev.call(w.method(w.editor, "__enter__"), [], {})
+                raw = w.editor.fields.get("mesh")
+                after = _snapshot(w, w.input, CONTAINERS[cls])
+                w.ev.call(w.method(w.editor, "__exit__"), [None, None, None], {})
+                return w, r, raw, before, after, list(inst), mutlog
+            hooks = {("func", "_instanciate_raw_mesh_data"): h_inst, ("func", "mouette.mesh.mesh._instanciate_raw_mesh_data"): h_inst,
+                     ("method", "RawMeshData", "prepare"): lambda ev, o, a, k: None}
+            hooks.update(mutator_hooks(mutlog))
+            return world(ctx, dec, rev, build, hooks)
+        outs = explore(ctx, "C13-E1", s_enter, f"{cls}: opening and closing the editing block", setup, both_orders=False)
+        if outs is None:
+            continue
+        pe, px, ph = [], [], []
+        n_h1 = 0
+        for o in outs:
+            if o.unknown is not None:
                 continue
-            for c in au.calls(f):
-                if isinstance(c.func, ast.Attribute) and au.is_self_attr(c.func) and breaks.get(c.func.attr):
-                    breaks[n] = True
-                    changed = True
-    # methods that need complete edges: build a dict keyed by keyify(edge) while iterating self.mesh.edges / id_edges and
-    # read it with keyify of face sides
-    needing = []
-    for n, f in methods.items():
-        iter_edges = [st for st in au.stmts(f.body) if isinstance(st, ast.For) and au.src(st.iter) in ("self.mesh.edges", "self.mesh.id_edges")]
-        lookups = [x for x in au.walk(f) if isinstance(x, ast.Subscript) and isinstance(x.ctx, ast.Load) and isinstance(x.slice, ast.Call)
-                   and au.call_tail(x.slice) == "keyify" and isinstance(x.value, ast.Name)]
-        if iter_edges and lookups:
-            needing.append((n, f, iter_edges))
-    ctx.require_count("C13-S1 methods cutting every edge", len(needing), 2)
-    for n, f, iter_edges in needing:
-        bad = []
+            if o.raised is not None:
+                o.unknown = Unknown(f"{cls}: opening / closing the editing block raises on the template: {o.raised.value!r}")
+                continue
+            w, r, raw, before, after, inst, mutlog = o.value
+            mesh = w.input
+            rmd = w.cls(M.MD, "RawMeshData")
+            is_raw = isinstance(raw, Obj) and any(c.node is rmd.node for c in w.ev.mro(raw.cls)) and raw is not mesh
+            if r is not w.editor or not is_raw:
+                pe.append(M.Problem("C13-E1", f"{cls}.__enter__ does not wrap the mesh into RawMeshData and return the editor",
+                                    f"returns {'the editor' if r is w.editor else repr(r)}; editor.mesh is {raw!r}: the editing methods work on raw data "
+                                    f"that is prepared and re-instantiated on exit"))
+                continue
+            shared = [n for n in names if raw.fields.get(n) is mesh.fields[n]]
+            if shared and len(shared) != len(names):
+                miss = [n for n in names if n not in shared]
+                ph.append(M.Problem("C13-H1", f"{cls}.__enter__ shares {', '.join(shared)} with the input mesh but not {', '.join(miss)}",
+                                    "in-place operations rewrite the shared containers of the mesh passed in while its other containers are never "
+                                    "regenerated: the input ends neither unchanged nor equal to the result (half-updated)"))
+            for n in shared:
+                if before[n] != after[n]:
+                    n_h1 += 1
+                    calls = [(m, st) for (obj, m, st) in mutlog if obj is mesh.fields[n]]
+                    emptied = all(not v for v in after[n].values())
+                    what = calls[0][0] if calls else ("clear" if emptied else "<in-place write>")
+                    st = calls[0][1] if calls else None
+                    text = au.src(st.value) if isinstance(st, ast.Expr) else f"{n}.{what}()"
+                    p = M.Problem("C13-H1", f"{cls}.__enter__ calls {n}.{what}() on a container shared with the input mesh",
+                                  f"RawMeshData(mesh) shares the mesh's containers: `{text}` empties the *input* mesh's {n} "
+                                  f"(the mesh passed in is left with faces but no corners - half-updated, neither unchanged nor equal to the result)")
+                    p.node = st
+                    ph.append(p)
+            # exit: re-instantiated from the edited raw data with the dimension of the class
+            fin = w.editor.fields.get("mesh")
+            ok = isinstance(fin, Obj) and "__inst__" in fin.fields and fin.fields["__inst__"][0] is raw and fin.fields["__inst__"][1] == dim
+            direct = isinstance(fin, Obj) and fin.cls.name == CLASS_OF[cls][1] and fin.fields.get("__args__", [None])[:1] == [raw]
+            if not (ok or direct):
+                got = fin.fields.get("__inst__") if isinstance(fin, Obj) else None
+                px.append(M.Problem("C13-E1", f"{cls}.__exit__ does not `self.mesh.prepare(); self.mesh = _instanciate_raw_mesh_data(self.mesh, {dim})`",
+                                    "all connectivity answers of the result must describe the refined mesh: the raw data must be prepared and "
+                                    f"re-instantiated as a dimension-{dim} mesh on exit (got {('dimension ' + repr(got[1])) if got else repr(fin)})"))
+        for p in ph:
+            ctx.fail("C13-H1", ctx.site(SUB, f"{cls}.__enter__", getattr(p, "node", None) or f_enter), p.construct, p.what)
+        unk = [o.unknown for o in outs if o.unknown is not None]
+        if not ph:
+            (ctx.undecided("C13-H1", s_enter, f"{cls}.__enter__: cannot be evaluated on the template mesh", str(unk[0])[:300]) if unk
+             else ctx.ok("C13-H1", s_enter, f"{cls}.__enter__ does not mutate shared containers"))
+        report(ctx, s_enter, pe, ["C13-E1"], f"{cls}.__enter__ wraps and returns the editor", outs if not pe else (), f"{cls}.__enter__")
+        report(ctx, s_exit, px, ["C13-E1"], f"{cls}: re-instantiate({dim}) on exit", outs if not px else (), f"{cls}.__exit__")
 
-        def stmt(state, st, _bad=bad):
-            if state is TOP:
-                return state
-            if hasattr(st, "loop"):
-                if au.src(st.iter) in ("self.mesh.edges", "self.mesh.id_edges") and "complete" not in state:
-                    _bad.append(st.loop)
-                return state
-            for c in sorted(au.calls(st), key=lambda c: (c.lineno, c.col_offset)):
-                if isinstance(c.func, ast.Attribute):
-                    if c.func.attr in ("_complete_edges_from_faces", "prepare") and au.src(c.func.value) == "self.mesh":
-                        state = state | {"complete"}
-                    elif au.is_self_attr(c.func) and breaks.get(c.func.attr):
-                        state = state - {"complete"}
-            if isinstance(st, ast.Assign) and au.is_self_attr(st.targets[0], "mesh"):
-                # a freshly built mesh: complete iff its edges were filled from the edges of its faces in this method (C13-T1 checks that table)
-                x = st.value.id if isinstance(st.value, ast.Name) else None
-                filled = x is not None and any(isinstance(s2, ast.AugAssign) and au.src(s2.target) == f"{x}.edges" for s2 in au.stmts(f.body))
-                state = (state | {"complete"}) if filled else (state - {"complete"})
-            return state
-        Flow(stmt).run(f.body, frozenset())
-        site = ctx.site(SUB, f)
-        ctx.check(not bad, "C13-S1", site,
-                  f"SurfaceSubdivision.{n} cuts `every edge` of a mesh whose edge list may miss sides of its faces",
-                  "the method halves every edge of self.mesh.edges and then looks up the midpoint of every side of every face; "
-                  "faces added by triangulate() (quad diagonals) or by a previous 1-to-3-quads step have sides that are not in the "
-                  "edge list yet (edges are only completed by prepare()): KeyError on any quad mesh / on the second repetition",
-                  note=f"{n}: edges completed before being cut")
 
-
-# ---------------------------------------------------------------------------- D1
-def d1_dispatch(ctx):
-    from .. import order
+# ------------------------------------------------------------------------------------------------ a whole editing block, prepared for real on exit
+def block_end_to_end(ctx):
+    """enter, one in-place operation, exit - with RawMeshData.prepare() evaluated for real on a small mesh with concrete indices:
+    the data handed to the new mesh object must describe the refined mesh (edges, corner records), with no generated edge flagged hard"""
     repo = ctx.repo
-    fn = repo.func(SUB, "SurfaceSubdivision.triangulate_face")
-    site = ctx.site(SUB, fn)
-    b = sym.Bindings(fn)
-    # classify what happens for n = 3..7 by evaluating the if/elif chain on len(F)
-    from ..rules.c1120_util import paths as _paths
-    ok = False
-    if True:
-        def symf(node):
-            r = b.resolve(node, at=fn.body[-1])
-            if isinstance(r, ast.Call) and au.call_tail(r) == "len" and au.src(b.resolve(r.args[0], at=fn.body[-1])).startswith("self.mesh.faces["):
-                return "n"
-            raise order.Unsupported(au.src(node))
+    cases = [("SurfaceSubdivision", "triangulate", [], [(0, 1, 2, 3), (1, 0, 4)], [], 7),       # 7 vertices: two of them unused
+             ("VolumeSubdivision", "split_cell_as_fan", [0], [(1, 3, 2), (0, 2, 3), (3, 1, 0), (0, 1, 2)], [(0, 1, 2, 3)], 4)]
+    for cls, meth, args, F, C, nv in cases:
+        fn, site = anchor(ctx, cls, "__exit__")
+        label = f"{cls}: with-block running {meth}()"
 
-        def action(path):
-            body = path.stmts
-            if any(au.call_tail(c) == "split_face_as_fan" for s_ in body for c in au.calls(s_)):
-                return "fan"
-            if any(au.call_tail(c) == "append" and au.src(c.func.value) == "self.mesh.faces" for s_ in body for c in au.calls(s_)):
-                return "diag"
-            if path.end == "return" or not any(isinstance(s_, (ast.Assign, ast.AugAssign)) and "faces" in au.src(s_) for s_ in body):
-                return "none"
-            return "?"
-        try:
-            res = {}
-            ps = _paths(fn.body)
-            for n in (3, 4, 5, 6, 7):
-                pred = order.Pred(symf)
-                taken = [p_ for p_ in ps if all(bool(pred.eval(t, {"n": n})) == pol for t, pol, kind in p_.guards if kind == "if")]
-                res[n] = action(taken[0]) if len(taken) == 1 else "?"
-            ok = res == {3: "none", 4: "diag", 5: "fan", 6: "fan", 7: "fan"}
-        except order.Unsupported:
-            ok = False
-    ctx.check(ok, "C13-D1", site, "triangulate_face does not dispatch `triangle: nothing, quad: diagonal split, larger: fan`",
-              "every non-triangular face must be triangulated, triangles must be left alone", note="arity dispatch 3/4/5+")
-    # gates of the tetrahedral operations
-    for q, what, k in (("VolumeSubdivision.split_cell_as_fan", "self.mesh.cells[", 4), ("VolumeSubdivision.split_tet_from_face_center", "self.mesh.faces[", 3)):
-        fn = repo.func(SUB, q)
-        b = sym.Bindings(fn)
-        ok = False
-        for st in fn.body:
-            if isinstance(st, ast.If) and st.body and isinstance(st.body[-1], ast.Return) and not st.orelse:
-                def symf(node, _st=st, _b=b, _what=what):
-                    r = _b.resolve(node, at=_st)
-                    if isinstance(r, ast.Call) and au.call_tail(r) == "len" and au.src(_b.resolve(r.args[0], at=_st)).startswith(_what):
-                        return "n"
-                    raise order.Unsupported(au.src(node))
+        def setup(dec, rev, cls=cls, meth=meth, args=args, F=F, C=C, nv=nv):
+            def build(w):
+                # an unrelated block first (on a pentagon / another tetrahedron): nothing of it may leak into the next one
+                F0 = [(0, 1, 2, 3, 4)] if cls == "SurfaceSubdivision" else [tuple(c[i] for i in t) for c in [(0, 1, 2, 3)] for t in TET_FACES]
+                Ed0 = sorted({tuple(sorted(e)) for f in F0 for e in M.directed_edges(f)})
+                mesh0 = input_mesh(w, cls, Ed0, F0, [(0, 1, 2, 3)] if C else (), n_vertices=5)
+                ed0 = w.ev.call(w.cls(SUBM, cls), [mesh0], {})
+                w.ev.call(w.method(ed0, "__enter__"), [], {})
+                w.ev.call(w.method(ed0, meth), list(args), {})
+                w.ev.call(w.method(ed0, "__exit__"), [None, None, None], {})
+                Ed = sorted({tuple(sorted(e)) for f in F for e in M.directed_edges(f)})
+                mesh = input_mesh(w, cls, Ed, F, C, n_vertices=nv)
+                ed = w.ev.call(w.cls(SUBM, cls), [mesh], {})
+                w.ev.call(w.method(ed, "__enter__"), [], {})
+                w.ev.call(w.method(ed, meth), list(args), {})
+                raw = ed.fields.get("mesh")
+                w.ev.call(w.method(ed, "__exit__"), [None, None, None], {})
+                return w, raw, ed, len(Ed)
+            return world(ctx, dec, rev, build, {("method", "_Connectivity", "_compute_cell_adj"): lambda ev, o, a, k: None})
+        outs = explore(ctx, "C13-E1", site, label, setup, both_orders=False)
+        if outs is None:
+            continue
+        probs = []
+        for o in outs:
+            if o.unknown is not None:
+                continue
+            if o.raised is not None:
+                o.unknown = Unknown(f"{label} raises on the template: {o.raised.value!r}")
+                continue
+            w, raw, ed, n_edges0 = o.value
+            if not isinstance(raw, Obj) or "faces" not in raw.fields:
+                o.unknown = Unknown("editor.mesh is not raw mesh data inside the block")
+                continue
+            faces = [tuple(f) for f in w.data(raw.fields["faces"])]
+            cells = [tuple(c) for c in w.data(raw.fields["cells"])] if isinstance(raw.fields.get("cells"), Obj) else []
+            edges = [tuple(e) for e in w.data(raw.fields["edges"])]
+            want_faces = {frozenset(c[i] for i in t) for c in cells if len(c) == 4 for t in TET_FACES}
+            if not want_faces <= {frozenset(f) for f in faces}:
+                probs.append(M.Problem("C13-E1", f"{cls}: after the editing block a face of a new cell is not in the face list",
+                                       "the data is not (re)prepared on exit: faces of the new tetrahedra are missing"))
+                continue
+            sides = {frozenset(e) for f in faces for e in M.directed_edges(f)}
+            stray = [e for e in edges if frozenset(e) not in sides]
+            if stray:
+                probs.append(M.Problem("C13-E1", f"{cls}: after the editing block the edge list holds an edge that is not a side of a face of the mesh",
+                                       f"edge {M.fmt_face(stray[0])}: state of an earlier editing block (or of the class) leaks into this one"))
+            if not sides <= {frozenset(e) for e in edges}:
+                probs.append(M.Problem("C13-E1", f"{cls}: after the editing block a side of a new face is not in the edge list",
+                                       f"missing {sorted(tuple(sorted(x)) for x in sides - {frozenset(e) for e in edges})}: all connectivity answers of the "
+                                       "result must describe the refined mesh; the edited data must be prepared again on exit"))
+            fe, fa = list(w.elem(raw.fields["face_corners"])), list(w.adj(raw.fields["face_corners"]))
+            if (fe, fa) != ([v for f in faces for v in f], [i for i, f in enumerate(faces) for _ in f]):
+                probs.append(M.Problem("C13-E1", f"{cls}: after the editing block the face corners do not describe the faces of the result",
+                                       f"{len(fe)} corner record(s) for {sum(len(f) for f in faces)} face-vertex incidences: stale or missing corners "
+                                       "(the containers must be cleared on enter and regenerated on exit)"))
+            if cells:
+                ce, ca = list(w.elem(raw.fields["cell_corners"])), list(w.adj(raw.fields["cell_corners"]))
+                if (ce, ca) != ([v for c in cells for v in c], [i for i, c in enumerate(cells) for _ in c]):
+                    probs.append(M.Problem("C13-E1", f"{cls}: after the editing block the cell corners do not describe the cells of the result",
+                                           f"{len(ce)} corner record(s) for {sum(len(c) for c in cells)} cell-vertex incidences"))
+                ge, ga = list(w.elem(raw.fields["cell_faces"])), list(w.adj(raw.fields["cell_faces"]))
+                okf = ga == [i for i, c in enumerate(cells) for _ in range(4)] and len(ge) == len(ga) and all(
+                    isinstance(fi, int) and 0 <= fi < len(faces) and frozenset(faces[fi]) <= frozenset(cells[ci]) for fi, ci in zip(ge, ga))
+                if not okf:
+                    probs.append(M.Problem("C13-E1", f"{cls}: after the editing block the cell-face records do not describe the cells of the result",
+                                           f"{len(ge)} record(s) for {len(cells)} tetrahedra: stale or missing records (cleared on enter, regenerated on exit)"))
+            he = w.attributes(raw.fields["edges"]).get("hard_edges")
+            if isinstance(he, E.AttrModel) and any(v is True or v == 1 for v in he.data.values()):
+                probs.append(M.Problem("C13-H2", "edges generated while an already built mesh is edited are flagged as hard edges",
+                                       f"flagged edge indices after the block: {sorted(he.data)}; no edge was declared hard by the caller"))
+        seen = set()
+        probs = [p for p in probs if not ((p.kind, p.construct) in seen or seen.add((p.kind, p.construct)))]
+        report(ctx, site, probs, ["C13-E1", "C13-H2"], f"{cls}: the data handed over on exit describes the refined mesh", outs, label)
+
+
+# ------------------------------------------------------------------------------------------------ wrapper
+def wrapper_rule(ctx):
+    fn = ctx.repo.func(SUB, "split_double_boundary_edges_triangles")
+    site = ctx.site(SUB, fn)
+    label = "split_double_boundary_edges_triangles"
+    scen = {"corner": (["ABC"], "complete"),                                   # every vertex has degree 2: the triangle is split
+            "closed": (["ABC", "ACD", "ADB", "BDC"], "complete"),              # tetrahedron surface: every degree is 3, nothing to do
+            "isolated": (["ABC"], ["AB", "BC"])}                               # A and C have degree 1: must be refused
+    results = {}
+    allouts = []
+    for key, (faces, edges) in scen.items():
+        def setup(dec, rev, faces=faces, edges=edges):
+            inst = []
+
+            def h_inst(ev, args, kw):
+                o = Obj(box[0].cls("mouette.mesh.datatypes.base", "Mesh"), {"__opaque__": True, "__inst__": (args[0] if args else None,)})
+                inst.append(o)
+                return o
+            box = []
+
+            def build(w):
+                box.append(w)
+                order = "CADB" if not w.reverse else "BDAC"
+                names = {n: order.index(n) for n in "ABCD"}         # concrete vertex indices (the degree table is indexed by them)
+                F = [tuple(names[c] for c in f) for f in faces]
+                if edges == "complete":
+                    seen, Ed = set(), []
+                    for f in F:
+                        for a, b in M.directed_edges(f):
+                            if frozenset((a, b)) not in seen:
+                                seen.add(frozenset((a, b)))
+                                Ed.append(sorted_pair(w, a, b))
+                else:
+                    Ed = [sorted_pair(w, names[e[0]], names[e[1]]) for e in edges]
+                mesh = input_mesh(w, "SurfaceSubdivision", Ed, F, n_vertices=4)
+                f = w.ev.lookup(label, E.Frame(SUBM))
+                r = w.ev.call(f, [mesh], {})
+                w.F = F
+                return w, mesh, r, list(inst), F
+            return world(ctx, dec, rev, build, {("func", "_instanciate_raw_mesh_data"): h_inst,
+                                                ("func", "mouette.mesh.mesh._instanciate_raw_mesh_data"): h_inst,
+                                                ("method", "RawMeshData", "prepare"): lambda ev, o, a, k: None})
+        outs = explore(ctx, "C13-H1", site, f"{label} ({key})", setup, both_orders=(key != "closed"))
+        if outs is None:
+            return
+        results[key] = outs
+        allouts += outs
+    pd, ph = [], []
+    for key, outs in results.items():
+        for o in outs:
+            if o.unknown is not None:
+                continue
+            if key == "isolated":
+                if o.raised is None:
+                    pd.append(M.Problem("C13-D1", "the vertex degree does not count both endpoints of every edge",
+                                        "a triangle with a vertex that belongs to one edge only is accepted: a vertex of degree < 2 must be refused"))
+                continue
+            if o.raised is not None:
+                if "Isolated" in repr(o.raised.value) or key == "corner":
+                    pd.append(M.Problem("C13-D1", "the vertex degree does not count both endpoints of every edge",
+                                        f"on a mesh where every vertex belongs to at least two edges the function raises {o.raised.value!r}"))
+                else:
+                    o.unknown = Unknown(f"{label} raises on the template: {o.raised.value!r}")
+                continue
+            w, mesh, r, inst, F = o.value
+            if key == "closed":
+                if inst:
+                    pd.append(M.Problem("C13-D1", "a triangle is split although none of its vertices has degree two", "closed surface: every vertex has degree 3"))
+                elif r is not mesh:
+                    p = M.Problem("C13-H1", "split_double_boundary_edges_triangles does not return the mesh when there is nothing to split",
+                                  f"returns {r!r}: callers use the return value as the processed mesh")
+                    p.node = o.ev.last_return.get(id(fn))
+                    ph.append(p)
+                continue
+            if not inst:
+                pd.append(M.Problem("C13-D1", "a triangle whose vertices all have degree two is not split",
+                                    "the double border triangle must be replaced by a fan around its centre"))
+                continue
+            raw = inst[-1].fields["__inst__"][0]
+            if isinstance(raw, Obj) and "faces" in raw.fields:
                 try:
-                    w, _ = order.compare(st.test, f"n != {k}", symf)
-                    ok = ok or w is None
-                except order.Unsupported:
-                    pass
-        ctx.check(ok, "C13-D1", ctx.site(SUB, fn), f"{q.split('.')[-1]} does not return untouched unless the element has exactly {k} vertices",
-                  "the operation is defined on tetrahedra / triangles only; other elements must be left alone", note=f"gate len != {k}")
-    # split_tet_from_face_center: the three new cells go to slot c and two appends, all distinct
-    fn = repo.func(SUB, "VolumeSubdivision.split_tet_from_face_center")
-    used = []
-    for st in au.stmts(fn.body):
-        v = None
-        if isinstance(st, ast.Assign) and isinstance(st.targets[0], ast.Subscript) and au.src(st.targets[0].value) == "self.mesh.cells":
-            v = ("store", st.value)
-        elif isinstance(st, ast.Expr) and isinstance(st.value, ast.Call) and au.call_tail(st.value) == "append" \
-                and au.src(st.value.func.value) == "self.mesh.cells":
-            v = ("append", st.value.args[0])
-        if v and isinstance(v[1], ast.Subscript) and isinstance(v[1].value, ast.Name):
-            used.append((v[0], v[1].value.id, au.const(v[1].slice)))
-    ok = len(used) == 3 and len({u[1] for u in used}) == 1 and sorted(u[2] for u in used) == [0, 1, 2] \
-        and sorted(u[0] for u in used) == ["append", "append", "store"]
-    ctx.check(ok, "C13-D1", ctx.site(SUB, fn), f"the three tetrahedra replacing a cell are not stored as one replacement and two appends of three distinct new cells ({used})",
-              "a cell adjacent to the split face is replaced by exactly three tetrahedra", note="3 distinct new cells")
-    # degree counting
-    fn = repo.func(SUB, "split_double_boundary_edges_triangles")
-    incs = {}
-    for st in au.stmts(fn.body):
-        if isinstance(st, ast.AugAssign) and isinstance(st.op, ast.Add) and au.const(st.value) == 1 and isinstance(st.target, ast.Subscript):
-            loops = [a for a in au.ancestors(st) if isinstance(a, ast.For)]
-            if loops and au.src(loops[0].iter).endswith(".edges") and not au.guards(st, stop=loops[0]):
-                incs.setdefault(au.src(st.target.value), set()).add(au.src(st.target.slice))
-                tgt = [x.id for x in loops[0].target.elts] if isinstance(loops[0].target, ast.Tuple) else []
-    ok = any(v == set(tgt) and len(v) == 2 for v in incs.values()) if incs else False
-    ctx.check(ok, "C13-D1", ctx.site(SUB, fn), "the vertex degree does not count both endpoints of every edge", "", note="degree counts both endpoints")
+                    for pr in M.check_surface(w, F, raw, label, centres_of=F, midpoints=False, expect_arity=3, expect_count=3, n_old=4):
+                        pd.append(M.Problem(KIND_RULE.get(pr.kind, pr.kind), pr.construct, pr.what))
+                except Unknown as u:
+                    o.unknown = u
+            if r is mesh:
+                p = M.Problem("C13-H1", "split_double_boundary_edges_triangles returns its input mesh instead of the mesh re-instantiated by the editing block",
+                              "after the editing block the refined, valid mesh is the editor's; the object passed in has new faces but stale "
+                              "corners and connectivity (half-updated)")
+                p.node = o.ev.last_return.get(id(fn))
+                ph.append(p)
+            elif r is not inst[-1]:
+                ph.append(M.Problem("C13-H1", "split_double_boundary_edges_triangles does not return the mesh re-instantiated by the editing block", f"returns {r!r}"))
+    seen = set()
+    for p in ph:
+        if p.construct not in seen:
+            seen.add(p.construct)
+            ctx.fail("C13-H1", ctx.site(SUB, fn, getattr(p, "node", None)), p.construct, p.what)
+    if not ph:
+        report(ctx, site, [], ["C13-H1"], "wrapper returns the re-instantiated mesh", allouts, label)
+    report(ctx, site, pd, ["C13-D1", "C13-T1"], "degree counts both endpoints; each double border triangle is fanned once", allouts if not pd else (), label)
+
+
+# ------------------------------------------------------------------------------------------------ tetrahedral operations
+TET_FACES = ((1, 3, 2), (0, 2, 3), (3, 1, 0), (0, 1, 2))     # face i omits vertex i (orientation convention of the library)
+
+
+def _cyc(t):
+    t = list(t)
+    k = min(range(len(t)), key=lambda i: repr(t[i]))
+    return tuple(t[k:] + t[:k])
+
+
+def tet_boundary(cells):
+    d = Counter()
+    for c in cells:
+        for f in TET_FACES:
+            d[_cyc([c[i] for i in f])] += 1
+    out = Counter()
+    for t, n in d.items():
+        r = d.get(_cyc(reversed(t)), 0)
+        if n > r:
+            out[t] = n - r
+    return out
+
+
+def volume_ops(ctx):
+    repo = ctx.repo
+    # ---- split_cell_as_fan
+    fn, site = anchor(ctx, "VolumeSubdivision", "split_cell_as_fan")
+    allp, allouts = [], []
+    for which, label in ((0, "split_cell_as_fan on a tetrahedron"), (1, "split_cell_as_fan on a cell with 5 vertices")):
+        def setup(dec, rev, which=which):
+            def build(w):
+                open_editor(w, ["ABC"], "DAEBC", cls="VolumeSubdivision", cells=["ABCD", "ABCDE"])
+                w.ev.call(w.method(w.editor, "split_cell_as_fan"), [which], {})
+                return w
+            return world(ctx, dec, rev, build, {("method", "_Connectivity", "_compute_cell_adj"): lambda ev, o, a, k: None})
+        outs = explore(ctx, "C13-T1", site, label, setup)
+        if outs is None:
+            return
+
+        def check(w, which=which, label=label):
+            raw = edited(w)
+            V = w.data(raw.fields["vertices"])
+            cells = [tuple(c) for c in w.data(raw.fields["cells"])]
+            old = w.C[0]
+            if which == 1:
+                if cells != [tuple(c) for c in w.C] or V.items:
+                    return [M.Problem("arity", "split_cell_as_fan does not return untouched unless the element has exactly 4 vertices",
+                                      f"a cell with 5 vertices is rewritten: {[M.fmt_face(c) for c in cells]}")]
+                return []
+            if cells == [tuple(c) for c in w.C] and not V.items:
+                return [M.Problem("arity", "split_cell_as_fan does not return untouched unless the element has exactly 4 vertices",
+                                  "a tetrahedron is left alone: the operation is defined on tetrahedra")]
+            return check_tets(w, raw, [old], [c for i, c in enumerate(cells) if i != 1], label, centre_of=old)
+        allp += _collect(label, outs, check)
+        allouts += outs
+    report(ctx, site, allp, ["C13-T1", "C13-I1", "C13-B1", "C13-D1"], "split_cell_as_fan on template cells", allouts, "split_cell_as_fan")
+    # ---- split_tet_from_face_center
+    fn, site = anchor(ctx, "VolumeSubdivision", "split_tet_from_face_center")
+    allp, allouts = [], []
+    for which, label in ((0, "split_tet_from_face_center on a triangle between two tetrahedra"), (1, "split_tet_from_face_center on a quad")):
+        def setup(dec, rev, which=which):
+            def build(w):
+                # face ABC is local face 0 of cell (D,A,B,C) and local face 3 of cell (A,C,B,E)
+                open_editor(w, ["ABC", "ABCD"], "DAEBC", cls="VolumeSubdivision", cells=["DABC", "ACBE"])
+                w.ev.call(w.method(w.editor, "split_tet_from_face_center"), [which], {})
+                return w
+            hooks = {("method", "_Connectivity", "_compute_cell_adj"): lambda ev, o, a, k: None,
+                     ("method", "_Connectivity", "face_to_cells"): lambda ev, o, a, k: [0, 1] if a[0] == 0 else [],
+                     ("method", "_Connectivity", "in_cell_face_index"): lambda ev, o, a, k: {0: 0, 1: 3}[a[0]]}
+            return world(ctx, dec, rev, build, hooks)
+        outs = explore(ctx, "C13-T1", site, label, setup)
+        if outs is None:
+            return
+
+        def check(w, which=which, label=label):
+            raw = edited(w)
+            V = w.data(raw.fields["vertices"])
+            cells = [tuple(c) for c in w.data(raw.fields["cells"])]
+            faces = [tuple(f) for f in w.data(raw.fields["faces"])]
+            if which == 1:
+                if cells != [tuple(c) for c in w.C] or faces != [tuple(f) for f in w.F]:
+                    return [M.Problem("arity", "split_tet_from_face_center does not return untouched unless the element has exactly 3 vertices",
+                                      "a quadrangular face is rewritten")]
+                return []
+            ps = []
+            f0 = w.F[0]
+            # the face
+            sub = M.check_surface(w, [f0], _only_faces(w, raw, [f for f in faces if f != tuple(w.F[1])]), label, centres_of=[f0], midpoints=False,
+                                  expect_arity=3, expect_count=3)
+            ps += sub
+            if ps:
+                return ps
+            if len(V.items) != 1:
+                return [M.Problem("index", f"split_tet_from_face_center appends {len(V.items)} vertices instead of one", "")]
+            ctr = w.ev.nums.norm(V.base)
+            for ci, old in enumerate(w.C):
+                want = Counter(tuple(ctr if x == v else x for x in old) for v in f0)
+                got = Counter()
+                for c in cells:
+                    if set(c) - {ctr} <= set(old) and ctr in c and len(c) == 4:
+                        got[c] += 1
+                if cells[ci] == tuple(old) or not got:
+                    ps.append(M.Problem("arity", "a tetrahedron adjacent to the split face is not replaced by three tetrahedra",
+                                        f"cell {M.fmt_face(old)} (the face is its local face {0 if ci == 0 else 3}) is left as it is while the face itself is split: "
+                                        f"the result is not conforming"))
+                elif got != want:
+                    ps.append(M.Problem("arity", "the three tetrahedra replacing a cell are not stored as one replacement and two appends of three distinct new cells",
+                                        f"cell {M.fmt_face(old)} becomes {[M.fmt_face(c) for c in got.elements()]}, expected each vertex of the face replaced "
+                                        f"by the centre once: {[M.fmt_face(c) for c in want]}"))
+            if not ps and len(cells) != 6:
+                ps.append(M.Problem("tiling", f"split_tet_from_face_center leaves {len(cells)} cells instead of 6", f"{[M.fmt_face(c) for c in cells]}"))
+            if not ps:
+                ps += check_tets(w, raw, w.C, cells, label, centre_of=None, positions=False)
+            return ps
+        allp += _collect(label, outs, check)
+        allouts += outs
+    report(ctx, site, allp, ["C13-T1", "C13-I1", "C13-B1", "C13-D1"], "split_tet_from_face_center on template cells", allouts, "split_tet_from_face_center")
+
+
+def _only_faces(w, raw, faces):
+    """a view of `raw` restricted to some faces (for the surface oracle)"""
+    o = Obj(raw.cls, dict(raw.fields))
+    o.fields["faces"] = w.container("faces", faces)
+    return o
+
+
+def check_tets(w, raw, old_cells, new_cells, label, centre_of=None, positions=True):
+    ev = w.ev
+    V = M.vertex_table(w, raw)
+    ps = []
+    for c in new_cells:
+        if len(c) != 4:
+            return [M.Problem("tiling", f"{label}: a new cell has {len(c)} vertices", M.fmt_face(c))]
+        for x in c:
+            if M.classify_index(w, V, x)[0] == "bad":
+                return [M.Problem("index", f"{label}: a new cell refers to a vertex index that holds no vertex",
+                                  f"cell {M.fmt_face(c)} uses index {x}; {len(V.items)} vertex(es) were appended")]
+    if positions and centre_of is not None:
+        if len(V.items) != 1:
+            return [M.Problem("index", f"{label}: {len(V.items)} vertices are appended instead of one", "")]
+        a = M.affine(ev, V.items[0])
+        want = {w.pos(s).name: Fraction(1, len(centre_of)) for s in centre_of}
+        if a != want:
+            return [M.Problem("position", f"{label}: the new vertex is not at the centre of the cell it refines", f"it is placed at {V.items[0]}")]
+    if tet_boundary(new_cells) != tet_boundary(old_cells) and positions:
+        ps.append(M.Problem("tiling", f"{label}: the new tetrahedra do not tile the old one with its orientation",
+                            f"new cells {[M.fmt_face(c) for c in new_cells]}: their oriented boundary differs from the boundary of {[M.fmt_face(c) for c in old_cells]}"))
+    def form(cells):
+        tot = {}
+        for c in cells:
+            tot = M.add_forms(tot, M.volume_form([M.position_of(w, V, x) for x in c]))
+        return tot
+    if not ps and form(new_cells) != form(old_cells):
+        ps.append(M.Problem("tiling", f"{label}: the total signed volume of the cells changes",
+                            f"new cells {[M.fmt_face(c) for c in new_cells]} (a tetrahedron is inverted, counted twice or lost)"))
+    return ps
